@@ -92,6 +92,24 @@ fn main() {
 	}
 	install_panic_hook();
 	if args[1] == "child" {
+		// a child whose parent has gone (killed by its own wall-clock guard, or by the caller) must not
+		// linger: it may be inside a call of the code under test that never returns
+		{
+			let ppid = || -> Option<u64> {
+				let st = std::fs::read_to_string("/proc/self/stat").ok()?;
+				let rest = &st[st.rfind(')')? + 2..];
+				rest.split(' ').nth(1)?.parse().ok()
+			};
+			if let Some(p0) = ppid() {
+				std::thread::spawn(move || loop {
+					std::thread::sleep(std::time::Duration::from_secs(2));
+					match ppid() {
+						Some(p) if p == p0 => {}
+						_ => std::process::exit(3),
+					}
+				});
+			}
+		}
 		if args[2] == "pbt" && args.len() >= 9 {
 			// gv child pbt <ID> <part> <tier> <seed> <cases> <outfile>
 			let defs = props();
